@@ -2,10 +2,10 @@ package verifcheck
 
 import (
 	"fmt"
-	"sync/atomic"
 	"math/rand"
 	"path/filepath"
 	"sort"
+	"sync/atomic"
 	"time"
 
 	"github.com/sanonone/kektordb/internal/verifhook"
